@@ -181,8 +181,12 @@ pub fn replay_log<S: System>(cfg: &Cfg, h: &[S::Op]) -> Vec<String> {
     for &op in h {
         let mut out = StepOut::default();
         s.apply(op, &mut out);
-        let vs: Vec<String> = out.viol.iter().map(|v| format!("{}:{}:{}", v.prop, v.clause, v.msg)).collect();
+        let vs: Vec<String> = out.viol.iter().map(|v| format!("{}:{}", v.prop, v.clause)).collect();
         log.push(format!("{:?} -> {} {}{}", op, out.obs, if out.corrupt { "CORRUPT " } else { "" }, vs.join(" | ")));
+        if out.corrupt {
+            std::mem::forget(s);
+            return log;
+        }
     }
     log
 }
@@ -283,6 +287,12 @@ pub fn explore<S: System>(cfg: &Cfg, opts: &Opts) -> RunResult {
                                     w.next.push((f, hh));
                                 }
                             }
+                            if out.corrupt {
+                                // tearing down a structurally corrupt primitive can touch
+                                // dangling nodes (e.g. a releaser waking a freed waiter):
+                                // leak it instead
+                                std::mem::forget(s);
+                            }
                         }
                     }
                     outs.lock().unwrap().push(w);
@@ -372,6 +382,11 @@ pub fn replay_named<S: System>(cfg: &Cfg, names: &[String]) -> Result<Vec<String
         s.apply(op, &mut out);
         let vs: Vec<String> = out.viol.iter().map(|v| format!("VIOLATION {}:{}: {}", v.prop, v.clause, v.msg)).collect();
         log.push(format!("{:?} -> {} {}{}", op, out.obs, if out.corrupt { "CORRUPT " } else { "" }, vs.join(" | ")));
+        if out.corrupt {
+            log.push("state is structurally corrupt: replay stops here (the primitive is leaked, not torn down)".to_string());
+            std::mem::forget(s);
+            return Ok(log);
+        }
     }
     let mut out = StepOut::default();
     s.finish(&mut out);
